@@ -16,6 +16,6 @@ echo "== demo with patch"; PYTHONPATH=$WT timeout 600 /venv/bin/python demo.py >
 echo "== test suite with patch"; PYTHONPATH=$WT timeout 1200 /venv/bin/python -m pytest -q -p no:cacheprovider -n 8 --timeout=900 tests 2>&1 | tail -1
 echo "== check $P against patched tree"
 cd /verif
-MATSIM_REPO=$WT ./check $P --no-evidence --no-known --replay-dir $WT/replays ${W:+--worlds $W} "$@" 2>&1 | grep -v conda | grep -v "^  minimised" | head -12
+MATSIM_REPO=$WT ./check $P --no-evidence --replay-dir $WT/replays ${W:+--worlds $W} "$@" 2>&1 | grep -v conda | grep -v "^  minimised" | head -12
 echo "check rc=${PIPESTATUS[0]}"
 git -C /repo worktree remove --force $WT
